@@ -197,6 +197,7 @@ pub fn exec(func: &str, a: &mut Args) -> String {
             let depth = match query::contact(&p1, &*g1, &p2, &*g2, 0.0) { Ok(Some(c)) => c.dist, _ => f64::NAN };
             format!("{} ; {} ; {} ; {} {}", run(&p1, &*g1, &p2, &*g2), run(&p2, &*g2, &p1, &*g1), run(&q1, &*g1, &q2, &*g2), ff(dist), ff(depth))
         }
+        f if f.contains("2_") => two::exec(f, a),
         _ => "nofn".into(),
     }
 }
@@ -344,6 +345,7 @@ pub fn gen(r: &mut Rng, thorough: bool) -> Vec<(String, String)> {
             let ci = details::intersection_test_point_query_ball(&pinv, &*cs, &ball);
             v.push(("w_it_ball_pq".into(), format!("{} {} {}", base, d3::hiso(&pinv), b(ci))));
         }
+        two::gen(r, lat, &mut v);
         // ---- oracle-only: the real dispatcher on any supported pair, both orders and under a common isometry
         for _ in 0..3 {
             let all: [u8; 6] = [0, 1, 2, 3, 4, 5];
@@ -362,4 +364,179 @@ pub fn gen(r: &mut Rng, thorough: bool) -> Vec<(String, String)> {
         }
     }
     v
+}
+
+// ================================================================== 2-D (parry2d-f64)
+pub mod two {
+    use crate::util::*;
+    use crate::p2::query::{self, details, ClosestPoints, Contact};
+    use crate::p2::shape::{Ball, Capsule, Cuboid, HalfSpace, Segment, Shape, Triangle};
+    use crate::p2::na;
+    use d2::{Isometry, Point, Real, Vector};
+
+    #[derive(Clone, Debug)]
+    pub enum Sh { Ball(f64), Cuboid(Vector<Real>), HalfSpace(Vector<Real>), Capsule(Point<Real>, Point<Real>, f64), Triangle(Point<Real>, Point<Real>, Point<Real>), Segment(Point<Real>, Point<Real>) }
+    pub fn sh(a: &mut Args) -> Sh {
+        match a.tok() {
+            "ball" => Sh::Ball(a.f()),
+            "cuboid" => Sh::Cuboid(d2::v(a)),
+            "halfspace" => Sh::HalfSpace(d2::v(a)),
+            "capsule" => { let p = d2::p(a); let q = d2::p(a); Sh::Capsule(p, q, a.f()) }
+            "triangle" => { let p = d2::p(a); let q = d2::p(a); let r = d2::p(a); Sh::Triangle(p, q, r) }
+            "segment" => { let p = d2::p(a); let q = d2::p(a); Sh::Segment(p, q) }
+            k => panic!("shape kind {}", k),
+        }
+    }
+    pub fn hsh(s: &Sh) -> String {
+        match s {
+            Sh::Ball(r) => format!("ball {}", hx(*r)),
+            Sh::Cuboid(he) => format!("cuboid {}", d2::hv(he)),
+            Sh::HalfSpace(n) => format!("halfspace {}", d2::hv(n)),
+            Sh::Capsule(p, q, r) => format!("capsule {} {} {}", d2::hp(p), d2::hp(q), hx(*r)),
+            Sh::Triangle(p, q, r) => format!("triangle {} {} {}", d2::hp(p), d2::hp(q), d2::hp(r)),
+            Sh::Segment(p, q) => format!("segment {} {}", d2::hp(p), d2::hp(q)),
+        }
+    }
+    pub fn dynsh(s: &Sh) -> Box<dyn Shape> {
+        match s {
+            Sh::Ball(r) => Box::new(Ball::new(*r)),
+            Sh::Cuboid(he) => Box::new(Cuboid::new(*he)),
+            Sh::HalfSpace(n) => Box::new(HalfSpace::new(na::Unit::new_unchecked(*n))),
+            Sh::Capsule(p, q, r) => Box::new(Capsule::new(*p, *q, *r)),
+            Sh::Triangle(p, q, r) => Box::new(Triangle::new(*p, *q, *r)),
+            Sh::Segment(p, q) => Box::new(Segment::new(*p, *q)),
+        }
+    }
+    fn hs(n: &Vector<Real>) -> HalfSpace { HalfSpace::new(na::Unit::new_unchecked(*n)) }
+    pub fn fiso(m: &Isometry<Real>) -> String { format!("{} {} {}", ff(m.rotation.re), ff(m.rotation.im), d2::fv(&m.translation.vector)) }
+    pub fn fcontact(c: &Option<Contact>) -> String {
+        match c {
+            None => "none".into(),
+            Some(c) => format!("some {} {} {} {} {}", d2::fp(&c.point1), d2::fp(&c.point2), d2::fv(&c.normal1), d2::fv(&c.normal2), ff(c.dist)),
+        }
+    }
+    pub fn fcp(c: &ClosestPoints) -> String {
+        match c {
+            ClosestPoints::Intersecting => "intersecting".into(),
+            ClosestPoints::WithinMargin(p, q) => format!("within {} {}", d2::fp(p), d2::fp(q)),
+            ClosestPoints::Disjoint => "disjoint".into(),
+        }
+    }
+    fn res<T, F: Fn(&T) -> String>(r: Result<T, query::Unsupported>, f: F) -> String {
+        match r { Ok(x) => f(&x), Err(_) => "unsupported".into() }
+    }
+    fn d_contact(s1: &Sh, s2: &Sh, pos12: &Isometry<Real>, pred: f64) -> String {
+        match (s1, s2) {
+            (Sh::Ball(r1), Sh::Ball(r2)) => fcontact(&details::contact_ball_ball(pos12, &Ball::new(*r1), &Ball::new(*r2), pred)),
+            (Sh::HalfSpace(n), x) => { let g = dynsh(x); fcontact(&details::contact_halfspace_support_map(pos12, &hs(n), g.as_support_map().unwrap(), pred)) }
+            (x, Sh::HalfSpace(n)) => { let g = dynsh(x); fcontact(&details::contact_support_map_halfspace(pos12, g.as_support_map().unwrap(), &hs(n), pred)) }
+            _ => "noroute".into(),
+        }
+    }
+    pub fn exec(func: &str, a: &mut Args) -> String {
+        match func {
+            "iso2_inverse" => { let m = d2::iso(a); fiso(&m.inverse()) }
+            "iso2_mul" => { let m = d2::iso(a); let n = d2::iso(a); fiso(&(m * n)) }
+            "iso2_inv_mul" => { let m = d2::iso(a); let n = d2::iso(a); fiso(&m.inv_mul(&n)) }
+            "iso2_act" => { let m = d2::iso(a); let p = d2::p(a); d2::fp(&(m * p)) }
+            "iso2_inv_act" => { let m = d2::iso(a); let p = d2::p(a); d2::fp(&m.inverse_transform_point(&p)) }
+            "d2_contact" => { let s1 = sh(a); let s2 = sh(a); let m = d2::iso(a); let p = a.f(); d_contact(&s1, &s2, &m, p) }
+            "q2_contact" => { let s1 = sh(a); let p1 = d2::iso(a); let s2 = sh(a); let p2 = d2::iso(a); let p = a.f();
+                res(query::contact(&p1, &*dynsh(&s1), &p2, &*dynsh(&s2), p), fcontact) }
+            "o2_contact" | "o2_distance" | "o2_it" | "o2_cp" => {
+                let s1 = sh(a); let p1 = d2::iso(a); let s2 = sh(a); let p2 = d2::iso(a); let g = d2::iso(a);
+                let p = if func == "o2_contact" || func == "o2_cp" { a.f() } else { 0.0 };
+                let (g1, g2) = (dynsh(&s1), dynsh(&s2));
+                let (q1, q2) = (g * p1, g * p2);
+                let run = |pa: &Isometry<Real>, sa: &dyn Shape, pb: &Isometry<Real>, sb: &dyn Shape| -> String {
+                    match func {
+                        "o2_contact" => res(query::contact(pa, sa, pb, sb, p), fcontact),
+                        "o2_distance" => res(query::distance(pa, sa, pb, sb), |x| ff(*x)),
+                        "o2_it" => res(query::intersection_test(pa, sa, pb, sb), |x| b(*x).to_string()),
+                        _ => res(query::closest_points(pa, sa, pb, sb, p), fcp),
+                    }
+                };
+                let dist = query::distance(&p1, &*g1, &p2, &*g2).unwrap_or(f64::NAN);
+                let depth = match query::contact(&p1, &*g1, &p2, &*g2, 0.0) { Ok(Some(c)) => c.dist, _ => f64::NAN };
+                format!("{} ; {} ; {} ; {} {}", run(&p1, &*g1, &p2, &*g2), run(&p2, &*g2, &p1, &*g1), run(&q1, &*g1, &q2, &*g2), ff(dist), ff(depth))
+            }
+            _ => "nofn".into(),
+        }
+    }
+    fn gen_normal(r: &mut Rng, lat: bool) -> Vector<Real> {
+        if lat { let (c, s) = d2::gen_rot(r, true); Vector::new(c, s) } else { let a = r.uniform(-3.2, 3.2); Vector::new(a.cos(), a.sin()) }
+    }
+    fn gen_shape(r: &mut Rng, lat: bool, kinds: &[u8]) -> Sh {
+        let small = if lat { 2.0 } else { 10.0 };
+        match *r.pick(kinds) {
+            0 => Sh::Ball(r.pos_extent(lat)),
+            1 => Sh::Cuboid(d2::gen_he(r, lat)),
+            2 => Sh::HalfSpace(gen_normal(r, lat)),
+            3 => Sh::Capsule(d2::gen_p(r, lat, small), d2::gen_p(r, lat, small), r.pos_extent(lat).min(10.0)),
+            4 => loop {
+                let (p, q, s) = (d2::gen_p(r, lat, small), d2::gen_p(r, lat, small), d2::gen_p(r, lat, small));
+                if (q - p).perp(&(s - p)).abs() > 1e-3 { break Sh::Triangle(p, q, s); }
+            },
+            _ => loop {
+                let (p, q) = (d2::gen_p(r, lat, small), d2::gen_p(r, lat, small));
+                if (q - p).norm() > 1e-3 { break Sh::Segment(p, q); }
+            },
+        }
+    }
+    fn size(s: &Sh) -> f64 {
+        match s {
+            Sh::Ball(r) => *r, Sh::Cuboid(he) => he.norm(), Sh::HalfSpace(_) => 0.0,
+            Sh::Capsule(p, q, r) => p.coords.norm().max(q.coords.norm()) + r,
+            Sh::Triangle(p, q, s) => p.coords.norm().max(q.coords.norm()).max(s.coords.norm()),
+            Sh::Segment(p, q) => p.coords.norm().max(q.coords.norm()),
+        }
+    }
+    fn gen_poses(r: &mut Rng, lat: bool, s1: &Sh, s2: &Sh) -> (Isometry<Real>, Isometry<Real>, Isometry<Real>) {
+        let ts = if r.below(4) == 0 { 1000.0 } else { 20.0 };
+        let p1 = d2::gen_iso(r, lat, ts);
+        let mut p2 = d2::gen_iso(r, lat, 1.0);
+        let reach = size(s1) + size(s2);
+        let dir = gen_normal(r, lat);
+        let k = if lat { *r.pick(&[0.0, 0.25, 0.5, 1.0, 1.5, 2.0]) } else { r.uniform(0.0, 2.5) };
+        let off = if lat { let o = dir * (reach * k); Vector::new((o.x * 4.0).round() / 4.0, (o.y * 4.0).round() / 4.0) } else { dir * (reach * k) };
+        let mut rel = p2;
+        rel.translation.vector = off;
+        p2.translation.vector = p1.translation.vector + off;
+        (p1, p2, rel)
+    }
+    pub fn gen(r: &mut Rng, lat: bool, v: &mut Vec<(String, String)>) {
+        let m = d2::gen_iso(r, lat, 100.0); let m2 = d2::gen_iso(r, lat, 100.0);
+        let p = d2::gen_p(r, lat, 50.0);
+        v.push(("iso2_inverse".into(), d2::hiso(&m)));
+        v.push(("iso2_mul".into(), format!("{} {}", d2::hiso(&m), d2::hiso(&m2))));
+        v.push(("iso2_inv_mul".into(), format!("{} {}", d2::hiso(&m), d2::hiso(&m2))));
+        v.push(("iso2_act".into(), format!("{} {}", d2::hiso(&m), d2::hp(&p))));
+        v.push(("iso2_inv_act".into(), format!("{} {}", d2::hiso(&m), d2::hp(&p))));
+        for _ in 0..2 {
+            let (s1, s2) = loop {
+                let s1 = gen_shape(r, lat, &[0, 1, 2]); let s2 = gen_shape(r, lat, &[0, 1, 2]);
+                let ok = match (&s1, &s2) { (Sh::Ball(_), Sh::Ball(_)) => true, (Sh::HalfSpace(_), Sh::HalfSpace(_)) => false, (Sh::HalfSpace(_), _) | (_, Sh::HalfSpace(_)) => true, _ => false };
+                if ok { break (s1, s2); }
+            };
+            let (p1, p2, pos12) = gen_poses(r, lat, &s1, &s2);
+            let par = super::gen_param(r, lat);
+            v.push(("d2_contact".into(), format!("{} {} {} {}", hsh(&s1), hsh(&s2), d2::hiso(&pos12), hx(par))));
+            v.push(("q2_contact".into(), format!("{} {} {} {} {}", hsh(&s1), d2::hiso(&p1), hsh(&s2), d2::hiso(&p2), hx(par))));
+        }
+        for _ in 0..2 {
+            let all: [u8; 6] = [0, 1, 2, 3, 4, 5];
+            let (s1, s2) = loop {
+                let s1 = gen_shape(r, lat, &all); let s2 = gen_shape(r, lat, &all);
+                if !matches!((&s1, &s2), (Sh::HalfSpace(_), Sh::HalfSpace(_))) { break (s1, s2); }
+            };
+            let (p1, p2, _) = gen_poses(r, lat, &s1, &s2);
+            let glat = lat && r.bool(); let g = d2::gen_iso(r, glat, 100.0);
+            let par = super::gen_param(r, lat);
+            let sw = format!("{} {} {} {} {}", hsh(&s1), d2::hiso(&p1), hsh(&s2), d2::hiso(&p2), d2::hiso(&g));
+            v.push(("o2_contact".into(), format!("{} {}", sw, hx(par))));
+            v.push(("o2_cp".into(), format!("{} {}", sw, hx(par))));
+            v.push(("o2_distance".into(), sw.clone()));
+            v.push(("o2_it".into(), sw));
+        }
+    }
 }
